@@ -116,3 +116,23 @@ func H01g_SecondQuoteAfterAcceptedFirst() {
 	vp.Assert("second-accepted-implies-report-data-binds-key-and-auth-data", vp.Implies(err == nil, bindOK))
 	vp.Assert("second-accepted-implies-qe-report-signed-by-leaf-key", vp.Implies(err == nil, qeSigOK))
 }
+
+// H01h: message fields wider than their wire size. A uint32 field that is serialised into two
+// bytes carries 16 bits that no signature covers; an accepted message has none of them set.
+func H01h_NoUnsignedBitsInAcceptedMessage() {
+	w := mkPKI(0, nil)
+	quote := q.Valid("q_", q.Shape{AuthLen: 0, Chain: w.chainBytes, WideInts: true})
+	quote.Header.Version = vp.U32("version32")
+	quote.Header.AttestationKeyType = vp.U32("akt32")
+	quote.SignedData.CertificationData.CertificateDataType = vp.U32("certtype32")
+	quote.SignedData.CertificationData.QeReportCertificationData.PckCertificateChainData.CertificateDataType = vp.U32("pcktype32")
+	quote.SignedData.CertificationData.QeReportCertificationData.QeAuthData.ParsedDataSize = vp.U32("authsize32")
+	err := TdxQuote(quote, &Options{Now: symTimeSet("t")})
+	vp.Reach("accept", err == nil)
+	r := quote.SignedData.CertificationData.QeReportCertificationData.QeReport
+	vp.Assert("accepted-message-has-no-bits-outside-the-wire-format", vp.Implies(err == nil, vp.And(
+		r.IsvProdId < 1<<16, r.IsvSvn < 1<<16, quote.Header.Version == 4, quote.Header.AttestationKeyType == 2,
+		quote.SignedData.CertificationData.CertificateDataType == 6,
+		quote.SignedData.CertificationData.QeReportCertificationData.PckCertificateChainData.CertificateDataType == 5,
+		quote.SignedData.CertificationData.QeReportCertificationData.QeAuthData.ParsedDataSize == 0)))
+}
